@@ -450,6 +450,21 @@ func checkC20(p *load.Program, r *kit.Report) {
 			}
 		}
 		r.Check(bad == "", "SCORE-SHAPE", "Get/filter", posOf(p, f.Blocks[0].Instrs[0]), "Score >= min && (max == -1 || Score <= max)", bad)
+		// the decision about one peer never ends the scan: the peers after it are examined as well
+		if keep != nil {
+			bad2 := ""
+			if header, body := loopBodyEntry(f, keep); header != nil && body != nil {
+				rr := kit.Reach(f, []kit.Pt{{B: body, I: 0}}, kit.Opts{StopAt: func(in ssa.Instruction) bool { return in == header.Instrs[0] }})
+				for _, ret := range kit.Returns(f) {
+					if rr.Has(ret) {
+						bad2 = "the scan of the list can end at a peer (" + rr.PathTo(ret, p.Pos) + "): every peer stored after it is missing from the answer although its score lies in the requested range"
+					}
+				}
+			} else {
+				bad2 = "the filter is not applied in a loop over the list"
+			}
+			r.Check(bad2 == "", "SCORE-SHAPE", "Get/scans-every-peer", posOf(p, keep), "no exit from the scan other than the end of the list", bad2)
+		}
 	}
 
 	// CODEC-SYM
